@@ -278,6 +278,21 @@ theorem hlle_tangent_block_eq : ∀ d : Int,
     Gen.HlleIndex.tangentBlockCols d = d ∧ Gen.HlleIndex.tangentRightCols d = d :=
   fun _ => ⟨rfl, rfl⟩
 
+/-- **Model-level corollary**: for `1 + d ≤ c < hlleCols d` the `c`-th column of `Yi` (before orthogonalisation) is the
+    entrywise product `u_a ∘ u_b` of the tangent columns for THE pair `(a, b)` = the `(c − 1 − d)`-th element of
+    `allPairs d` (`colOf U a` is column `a − 1` of `U` for `1 ≤ a ≤ d`: `hlle_colOf_eq`). -/
+theorem hlleYi0_products {K : Type} [Field K] {k d : Nat} (U : Mat k d K) (c : Nat)
+    (h1 : 1 + d ≤ c) (h2 : c < hlleCols d) :
+    ∃ pr, (allPairs d)[c - 1 - d]? = some pr ∧
+      (hlleYi0 U)[c]? = some (DVec.ofFn fun r => colOf U pr.1 r * colOf U pr.2 r) :=
+  hlleYi0_product_col (fun _ _ _ => rfl) (fun _ _ _ => rfl) (fun _ _ _ => rfl) U c h1 h2
+
+theorem hlle_colOf_eq {K : Type} [Field K] {k d : Nat} (U : Mat k d K) (a : Int) (h : 1 ≤ a ∧ a.toNat ≤ d) :
+    colOf U a = fun r => U r ⟨a.toNat - 1, by omega⟩ :=
+  colOf_eq U a h
+
+example : 1 + 3 ≤ 8 ∧ 8 < hlleCols 3 ∧ (allPairs 3)[8 - 1 - 3]? = some (2, 3) := by decide
+
 section HlleOk
 variable {K' : Type} [Add K'] [Sub K'] [Mul K'] [Div K'] [Zero K'] [One K'] [LT K'] [DecidableLT K']
 
@@ -511,6 +526,7 @@ theorem hlle_psd (nb : Fin N → Fin k → Fin N) (sqrtO : K → K) (thr : K) (U
   cases hM
   exact hlleMat_psd nb sqrtO thr U x
 
+omit [IsStrictOrderedRing K] in
 /-- Rayleigh quotient of column `j`: every eigenvalue of a full orthonormal eigensystem is at least any lower bound
     of the quadratic form -/
 theorem psd_eigenvalues_ge {n : Nat} (M V : Matrix (Fin n) (Fin n) K) (lam : Fin n → K)
@@ -553,6 +569,21 @@ theorem klle_end_to_end (nb : Fin N → Fin k → Fin N) (wraw : Fin N → Vec k
       Matrix.trace ((cols V (shiftIdx 1 hd))ᵀ * Mat.toM (lleM nb wraw shift) * cols V (shiftIdx 1 hd))
         ≤ Matrix.trace (Zᵀ * Mat.toM (lleM nb wraw shift) * Z) :=
   skip_one_end_to_end hd _ V lam hsys shift (lle_const_eigvec nb wraw shift hw) hsimple
+
+/-- non-vacuity over ℚ (`N = 4`, `k = 2`, `shift = 1/10`): neighbours `i xor 1`, `i xor 2` with raw weights `(1, 2)`;
+    the model matrix is diagonalised by the normalised Hadamard basis `exV` with eigenvalues
+    `shift + (0, 4/9, 16/9, 4)` — every hypothesis of `klle_end_to_end` holds (checked on the model by the kernel) -/
+def exNb : Fin 4 → Fin 2 → Fin 4 := fun i a => ⟨if a.1 = 0 then i.1 ^^^ 1 else i.1 ^^^ 2, by
+  have := i.2
+  split <;> (apply Nat.lt_of_lt_of_le (Nat.xor_lt_two_pow (n := 2) (by omega) (by omega)); decide)⟩
+def exW : Fin 4 → Vec 2 ℚ := fun _ a => if a.1 = 0 then 1 else 2
+def exLamLle : Fin 4 → ℚ := ![1 / 10, 1 / 10 + 4 / 9, 1 / 10 + 16 / 9, 1 / 10 + 4]
+example : (∀ i, sumFin 2 (exW i) ≠ 0) ∧ GenEigSystem (Mat.toM (lleM exNb exW (1 / 10))) 1 exV exLamLle ∧
+    (∀ j : Fin 4, j.1 ≠ 0 → exLamLle j ≠ 1 / 10) := by
+  refine ⟨by decide +kernel, ⟨?_, by decide +kernel, ?_⟩, by decide +kernel⟩
+  · rw [Matrix.mul_one, exV_orth]
+  · unfold Monotone
+    decide +kernel
 
 /-- **KLTSA end to end**: the same for `M = tangent_weight_matrix` under `rsk²·k = 1` and zero column sums of the local
     bases (hypotheses of `ltsa_const_null`).  (`embed()` glue observed per run, not modelled.) -/
